@@ -277,7 +277,18 @@ Q_PLACES = [1e-12, 1e-9, 1e-6, 1e-3, 0.01, 0.05, 0.25, 0.5, 0.75, 0.95, 0.99, 0.
             1 - 1e-12]
 
 
-def make_grid(fam, par, npts):
+def underflow_par(fam, code):
+    """parameter vector of an underflow class (spec/DistLawsOps.tla UnderflowCases)"""
+    k = code - 1
+    if fam == "ExpWeibull":
+        return dict(alpha=[1.0, 1000.0][k // 8], beta=[100.0, 500.0][k % 2], delta=[0.3, 0.01, 0.002, 0.001][(k // 2) % 4])
+    return dict(m=[0.05, 0.002][k % 2], c=[100.0, 500.0][(k // 2) % 2], lambda_=[1.0, 0.001][k // 4])
+
+
+UNDERFLOW_X = [0.01, 0.02, 0.05, 0.1, 0.2, 0.3, 0.5, 0.7, 0.8, 0.9, 0.95, 0.99, 1.0]     # x / scale
+
+
+def make_grid(fam, par, npts, extra=()):
     from . import reference as R
 
     lo, hi = R.support(fam, par)
@@ -290,6 +301,7 @@ def make_grid(fam, par, npts):
     nfill = max(4, npts - len(pts) - 8)
     pts |= {float(v) for v in np.linspace(a, b, nfill)}
     pts |= {0.0, -1.0 * s, -0.37 * s}
+    pts |= {float(v) for v in extra}
     lo_f = None if lo == -R.INF else float(lo)
     hi_f = None if hi == R.INF else float(hi)
     if fam == "VonMises":
@@ -347,7 +359,7 @@ def laws_record(vc, rid, case):
     rec = dict(id=rid, kind="laws", fam=fam, cl=cl, ext=list(case.get("ext", [0, 0])), rep=case["rep"], exc="")
     with warnings.catch_warnings(), np.errstate(all="ignore"):
         warnings.simplefilter("ignore")
-        xs, s, lo, hi = make_grid(fam, par, case["npts"])
+        xs, s, lo, hi = make_grid(fam, par, case["npts"], case.get("xextra", ()))
         xa = np.array(xs, dtype=float)
         try:
             dist = D.build(vc, fam, par)
@@ -402,12 +414,19 @@ def laws_record(vc, rid, case):
                 # inside: finite, 0 or +inf) - judged by the clause PdfAtSupportBoundary, with the parameters
                 # stored in the instance and passed explicitly (scalars / arrays, keyword / positional)
                 fcls.append(0); frel.append(0); fabs_.append(0)
-                if pr == R.INF:
-                    good = bool(fv == np.inf)
-                elif pr == 0:
-                    good = bool(fv == 0)
-                else:
-                    good = bool(np.isfinite(fv) and abs(R.M(float(fv)) - pr) <= R.M("1e-8") * pr)
+                def _edge_good(prv):
+                    if prv == R.INF:
+                        return bool(fv == np.inf)
+                    if prv == 0:
+                        return bool(fv == 0)
+                    return bool(np.isfinite(fv) and abs(R.M(float(fv)) - prv) <= R.M("1e-8") * prv)
+
+                good = _edge_good(pr)
+                if not good and x == 0:
+                    # knife edge: the exponent of x (beta*delta - 1, c*m - 1) is 0 in double arithmetic but
+                    # +-1e-17 for the doubles taken as exact numbers (100 * 0.01): the value for exponent 0 counts
+                    alt = R.pdf_at_zero_knife_edge(fam, par)
+                    good = alt is not None and _edge_good(alt)
                 edge.append(dict(x=repr(x), want=("inf" if pr == R.INF else repr(float(pr))), got=repr(float(fv)),
                                  ok=good, same=edge_variants_same(vc, fam, par, x, fv)))
             elif np.isnan(fv):
@@ -583,6 +602,12 @@ def law_cases(ctx, classes):
     out = []
     for c in classes:
         ext = list(c.get("ext", [0, 0]))
+        if ext[0] == 9:  # underflow class: a fixed parameter vector, grid reaching into the underflow region
+            par = underflow_par(c["fam"], ext[1])
+            scale = par["alpha"] if c["fam"] == "ExpWeibull" else 1.0 / par["lambda_"]
+            out.append(dict(fam=c["fam"], cl=list(c["cl"]), ext=ext, rep=0, npts=npts, par=par,
+                            xextra=[scale * v for v in UNDERFLOW_X]))
+            continue
         if ext[0]:      # extreme level of one slot: one canonical table
             out.append(dict(fam=c["fam"], cl=list(c["cl"]), ext=ext, rep=0, npts=npts,
                             par=D.concretise(c["fam"], c["cl"], 0, rng, ext)))
